@@ -1,8 +1,78 @@
-(* C18 -- lemmas (first version: concrete sanity runs; the unbounded theorems follow) *)
+(* C18 -- the main theorems *)
 From Coq Require Import NArith Arith Bool List Lia.
-From CppUVerif Require Import gen.Gen_C18 C18_Model.
+From CppUVerif Require Import gen.Gen_C18 C18_Model C18_Lists C18_Inv C18_Sim.
 Import ListNotations.
 Local Open Scope N_scope.
+
+Definition s0 : sstate := mk_s ([node_array_size], []) [] [] false [].
+
+Lemma R_init : R init_state s0.
+Proof.
+  constructor; simpl.
+  - reflexivity.
+  - reflexivity.
+  - reflexivity.
+  - intros id. lia.
+  - intros id [].
+  - intros id H1 H2. lia.
+  - intros id [].
+  - constructor.
+  - split; [reflexivity | intros []].
+  - apply Forall_forall. intros nd H b Hb. repeat (destruct H as [<-|H]; [destruct Hb|]). destruct H.
+  - constructor.
+  - intros e [].
+  - constructor.
+  - intros nd id H Hu. repeat (destruct H as [<-|H]; [destruct Hu|]). destruct H.
+  - intros id [].
+  - intros id c [].
+Qed.
+
+Lemma dealloc_ret : forall st p n, o_ret (snd (dealloc st p n)) = None.
+Proof.
+  intros. unfold dealloc, unknown_release. destruct (is_cached n).
+  - destruct (unlink _ p) as [[b u]|]; reflexivity.
+  - destruct (unlink _ p) as [[b u]|]; reflexivity.
+Qed.
+
+Lemma R_len : forall st s, R st s -> (1 <= length (fst (a_bk s)))%nat.
+Proof. intros st s HR. destruct (r_zero _ _ HR) as [H _]. apply szof_lt in H. lia. Qed.
+
+Definition ptrs_of (res : list N) : list (N * N) := map (fun id => (id, 0)) res.
+
+Lemma run_ops_ok : forall ops st s res, R st s -> a_ptrs s = ptrs_of res -> check_ops 1 s ops (run_ops st res ops) = true.
+Proof.
+  induction ops as [|o r IH]; intros st s res HR Hp.
+  - simpl. apply (sim_destroy st s HR).
+  - cbn [run_ops]. destruct (step st (resolve res o)) as [st1 x] eqn:E. cbn [check_ops].
+    destruct o as [n|k n|k n| |]; cbn [resolve step] in E; cbn [check_op].
+    + destruct (sim_alloc st s n HR) as [s' [H1 [H2 H3]]]. rewrite E in H1, H2, H3. cbn [fst snd] in *.
+      rewrite H1. apply IH; [exact H2|]. unfold ptrs_ok in H3. destruct (o_ret x) as [id|].
+      * rewrite H3, Hp. unfold ptrs_of. rewrite map_app. reflexivity.
+      * rewrite H3. exact Hp.
+    + set (p := match nth_error res k with Some id => PId id | None => PFor 0 end) in *.
+      assert (Hrel : ptr_rel p (nth_error (a_ptrs s) k)).
+      { rewrite Hp. unfold ptrs_of. rewrite nth_error_map. unfold p. destruct (nth_error res k); reflexivity. }
+      destruct (sim_dealloc st s p _ n HR Hrel) as [s' [H1 [H2 H3]]].
+      pose proof (dealloc_ret st p n) as Hret. rewrite E in H1, H2, Hret. cbn [fst snd] in *.
+      rewrite H1, Hret. apply IH; [exact H2 | rewrite H3; exact Hp].
+    + destruct (sim_dealloc st s (PFor k) None n HR eq_refl) as [s' [H1 [H2 H3]]].
+      pose proof (dealloc_ret st (PFor k) n) as Hret. rewrite E in H1, H2, Hret. cbn [fst snd] in *.
+      rewrite H1, Hret. apply IH; [exact H2 | rewrite H3; exact Hp].
+    + destruct (sim_clear_cache st s HR) as [s' [H1 [H2 H3]]]. rewrite clear_cache_eq in E.
+      rewrite clear_cache_eq in H1, H2. inversion E; subst. cbn [fst snd o_ret mk_out] in *.
+      rewrite H1. apply IH; [exact H2 | rewrite H3; exact Hp].
+    + destruct (sim_clear_all st s HR (R_len _ _ HR)) as [s' [H1 [H2 H3]]]. rewrite clear_all_eq in E.
+      rewrite clear_all_eq in H1, H2. inversion E; subst. cbn [fst snd o_ret mk_out] in *.
+      rewrite H1. apply IH; [exact H2 | rewrite H3; exact Hp].
+Qed.
+
+(* every history (no condition on the scenario is needed: a release that names no earlier alloc is a foreign release) *)
+Lemma run_meets_spec : forall sc, valid sc = true -> spec sc (run sc) = true.
+Proof.
+  intros sc _. unfold spec, run. cbn [i_evs i_ret i_warn item_of init_out o_evs o_ret o_warn mk_out].
+  change (apply_evs 0 [] ([], []) [EA 0 node_array_size]) with (Some ([node_array_size], @nil N)).
+  cbn [fst length]. apply (run_ops_ok (snd sc) init_state s0 []); [exact R_init | reflexivity].
+Qed.
 
 Definition demo : scenario :=
   (0, [OAlloc 10; OAlloc 20; OAlloc 33; OAlloc 300; ODealloc 1 20; ODealloc 0 5; OAlloc 1; ODealloc 2 10; OForeign 0 7;
